@@ -151,7 +151,7 @@ def run_roundtrip(case, ctx):
     try:
         for combo in range(14):
             a, adesc = gen_array(rng)
-            container = rng.choice(["bare", "bare", "list", "dict", "obj", "multi"])
+            container = rng.choice(["bare", "bare", "list", "dict", "obj", "multi", "twice"])
             compress = rng.choice([0, 0, 0, 1, 3, 9, "zlib", "gzip", "bz2", "lzma", "xz", ("zlib", 1), ("gzip", 6), ("bz2", 9), ("lzma", 1)])
             protocol = rng.choice([None, 2, 3, 4, 5])
             target = rng.choice(["path", "path", "file", "bytesio"])
@@ -165,6 +165,9 @@ def run_roundtrip(case, ctx):
             elif container == "obj":
                 from vlib.userclasses import Point
                 obj = Point(a, [a.dtype.str])
+            elif container == "twice":
+                # ONE array referenced twice (and once more inside a nested container): a shared reference, as pickle preserves it
+                obj = [a, {"again": a}, a]
             else:
                 obj = [others[0], {"a": a}, others[1]]
             desc = dict(adesc, container=container, compress=compress, protocol=protocol, target=target)
@@ -203,12 +206,21 @@ def run_roundtrip(case, ctx):
                     return o["k"]
                 if container == "obj":
                     return o.x
+                if container == "twice":
+                    return o[0]
                 return o[1]["a"]
 
             try:
                 bad = check_loaded(ctx, a, pick(got_exact), desc, True, "round-trip")
                 if not bad:
                     check_loaded(ctx, a, pick(got_default), dict(desc, load="default (native byte order)"), False, "round-trip-default")
+                if container == "twice" and not bad:
+                    ctx.count("round_trips_of_an_array_referenced_twice")
+                    for g in (got_exact[1]["again"], got_exact[2]):
+                        bad = bad or check_loaded(ctx, a, g, dict(desc, which="second / third reference to the same array"), True, "round-trip")
+                    if not bad and not (got_exact[0] is got_exact[2] and got_exact[0] is got_exact[1]["again"]):
+                        ctx.violation("round-trip:aliasing-lost:array-referenced-twice", f"one array referenced three times came back as {len({id(got_exact[0]), id(got_exact[1]['again']), id(got_exact[2])})} "
+                                                                                         f"distinct arrays (equal values): writing to one no longer shows in the others; {desc}", desc)
                 if container == "multi" and not bad:
                     for o, g in ((others[0], got_exact[0]), (others[1], got_exact[2])):
                         check_loaded(ctx, o, g, dict(desc, which="neighbour array in the same file"), True, "round-trip")
